@@ -178,6 +178,17 @@ func (c *Ctx) capped() bool {
 	return c.stop
 }
 
+// TimeUp reports whether the worker's deadline has passed; a long-running case that sees it stops exploring, and the run is marked as
+// capped (exhaustive: false) - it is not a failure.
+func (c *Ctx) TimeUp() bool {
+	if !c.Deadline.IsZero() && time.Now().After(c.Deadline) {
+		c.stop = true
+		c.res.Capped = true
+		return true
+	}
+	return false
+}
+
 var funcRe = regexp.MustCompile(`(?m)^(github\.com/crewjam/saml[^\s(]*)\.([A-Za-z0-9_.()*]+)\(`)
 
 // PanicSite extracts the innermost in-repo function from a stack trace.
